@@ -884,6 +884,7 @@ type cinst struct {
 	offs           []string
 	order          []string
 	chain          []string
+	resumed        []string // an unlimited read taken at an explored point, then resumed from its next offset when everything has settled
 }
 
 func (ci *cinst) Body() {
@@ -908,7 +909,20 @@ func (ci *cinst) Body() {
 			cur = next
 		}
 	})
+	var snapNext eventbus.Offset
+	vrt.Go(func() {
+		vrt.Point()
+		evs, next, _ := ms.Read(bg, eventbus.OffsetOldest, 0)
+		for _, e := range evs {
+			ci.resumed = append(ci.resumed, string(e.Offset))
+		}
+		snapNext = next
+	})
 	vrt.Join()
+	rest, _, _ := ms.Read(bg, snapNext, 0)
+	for _, e := range rest {
+		ci.resumed = append(ci.resumed, string(e.Offset))
+	}
 	evs, _, _ := ms.Read(bg, eventbus.OffsetOldest, 0)
 	for _, e := range evs {
 		ci.offs = append(ci.offs, string(e.Offset))
@@ -952,6 +966,9 @@ func (ci *cinst) Check(res *vrt.Result) []vrt.Violation {
 	if fmt.Sprint(ci.chain) != fmt.Sprint(ci.offs) {
 		bad("a chain of limited reads does not reproduce the log (gap or repeat)")
 	}
+	if fmt.Sprint(ci.resumed) != fmt.Sprint(ci.offs) {
+		bad("a read taken while appends were in flight, resumed from its next offset afterwards, does not reproduce the log (an event that became visible later lies before that offset)")
+	}
 	// every acknowledged offset is in the log exactly once
 	seen := map[string]int{}
 	for _, o := range ci.offs {
@@ -981,6 +998,9 @@ func (ci *cinst) Check(res *vrt.Result) []vrt.Violation {
 type sqinst struct {
 	st  string
 	out []string
+	// race: three appenders, the second one's context is cancelled by a fourth task at an
+	// explored point; every Append that returned nil returned the offset of its own event
+	race bool
 }
 
 func (q *sqinst) Body() {
@@ -994,6 +1014,10 @@ func (q *sqinst) Body() {
 		panic(err)
 	}
 	defer hd.Close()
+	if q.race {
+		q.bodyRace(hd)
+		return
+	}
 	for a := 0; a < 2; a++ {
 		a := a
 		vrt.Go(func() {
@@ -1025,12 +1049,95 @@ func (q *sqinst) Body() {
 		q.out = append(q.out, "two concurrent appends: offsets not increasing in log order")
 	}
 }
+func (q *sqinst) bodyRace(hd *stores.Handle) {
+	cctx, cancel := context.WithCancel(bg)
+	defer cancel()
+	acked := map[int]eventbus.Offset{}
+	for a := 1; a <= 3; a++ {
+		a := a
+		vrt.Go(func() {
+			ctx := bg
+			if a == 2 {
+				ctx = cctx
+			}
+			if off, err := hd.Store.Append(ctx, &eventbus.Event{Type: "t", Data: json.RawMessage(fmt.Sprintf(`{"n":%d}`, a)), Timestamp: time.Unix(int64(a), 0).UTC()}); err == nil {
+				acked[a] = off
+			}
+		})
+	}
+	vrt.Go(func() {
+		vrt.Point()
+		cancel()
+	})
+	vrt.Join()
+	all, _, err := hd.Store.Read(bg, eventbus.OffsetOldest, 0)
+	if err != nil {
+		q.out = append(q.out, fmt.Sprintf("Read failed after three concurrent appends: %v", err))
+		return
+	}
+	at := map[eventbus.Offset]int{}
+	for _, e := range all {
+		var d struct{ N int }
+		json.Unmarshal(e.Data, &d)
+		if _, dup := at[e.Offset]; dup {
+			q.out = append(q.out, "two events of the log have the same offset")
+		}
+		at[e.Offset] = d.N
+	}
+	seenOff := map[eventbus.Offset]bool{}
+	for a, off := range acked {
+		if at[off] != a {
+			q.out = append(q.out, "three concurrent appends, one of them with a context that is cancelled meanwhile: an Append returned nil with an offset that is not its own event's")
+		}
+		if seenOff[off] {
+			q.out = append(q.out, "two Appends were acknowledged with the same offset")
+		}
+		seenOff[off] = true
+	}
+}
+
 func (q *sqinst) Outcome() string { return q.st + fmt.Sprint(q.out) }
 func (q *sqinst) Check(res *vrt.Result) []vrt.Violation {
 	q.st = res.Status.String()
 	vs := vrt.StatusViolations("sqlite concurrent appenders", res)
 	for _, m := range q.out {
 		vs = append(vs, vrt.Violation{Kind: "concurrent-append", Sig: "store=sqlite concurrent Append: " + m, Detail: m})
+	}
+	return vs
+}
+
+// sinst: the first two SaveOffset calls on a fresh MemoryStore, for two subscriptions, at
+// the same time; both returned nil, both offsets are there.
+type sinst struct {
+	st  string
+	out []string
+}
+
+func (q *sinst) Body() {
+	ms := eventbus.NewMemoryStore()
+	ids := []string{"search-indexer", "mailer"}
+	for i, id := range ids {
+		i, id := i, id
+		vrt.Go(func() {
+			if err := ms.SaveOffset(bg, id, eventbus.Offset(fmt.Sprintf("%020d", i+3))); err != nil {
+				q.out = append(q.out, "SaveOffset on a MemoryStore failed: "+err.Error())
+			}
+		})
+	}
+	vrt.Join()
+	for i, id := range ids {
+		got, err := ms.LoadOffset(bg, id)
+		if err != nil || got != eventbus.Offset(fmt.Sprintf("%020d", i+3)) {
+			q.out = append(q.out, "the first two SaveOffset calls on a fresh MemoryStore, made at the same time for two subscriptions, both returned nil; LoadOffset does not return one of the offsets")
+		}
+	}
+}
+func (q *sinst) Outcome() string { return q.st + fmt.Sprint(q.out) }
+func (q *sinst) Check(res *vrt.Result) []vrt.Violation {
+	q.st = res.Status.String()
+	vs := vrt.StatusViolations("memory store first SaveOffset calls", res)
+	for _, m := range q.out {
+		vs = append(vs, vrt.Violation{Kind: "saved-offset", Sig: "store=memory " + m, Detail: m})
 	}
 	return vs
 }
@@ -1046,6 +1153,8 @@ func schedScenarios(thorough bool) []vrt.Scenario {
 		l = append(l, vrt.Scenario{Name: fmt.Sprintf("memory-appenders-%dx%d", s[0], s[1]), New: func() vrt.Instance { return &cinst{appenders: s[0], per: s[1]} }})
 	}
 	l = append(l, vrt.Scenario{Name: "sqlite-appenders-2x1", New: func() vrt.Instance { return &sqinst{} }})
+	l = append(l, vrt.Scenario{Name: "sqlite-appenders-3-one-context-cancelled-meanwhile", New: func() vrt.Instance { return &sqinst{race: true} }})
+	l = append(l, vrt.Scenario{Name: "memory-first-save-offsets-2", New: func() vrt.Instance { return &sinst{} }})
 	return l
 }
 
